@@ -81,7 +81,7 @@ fn leg_scratch_and_hide(ctx: &Ctx, out: &mut Out) {
     let leg = "scratch";
     let mut m = Merkle::default();
     for fam in [Fam::Core, Fam::Elements] {
-        let nmax = ctx.tier.pick(5, 5);
+        let nmax = ctx.tier.pick(5, 6);
         let alpha = if fam == Fam::Core { alphabet(fam) } else { sigma_core(fam) };
         for n in 1..=nmax {
             let mut dags: Vec<Dag> = vec![];
